@@ -269,11 +269,13 @@ class _FPCoreCompileInstance(Visitor):
         for i, elt in enumerate(binding):
             match elt:
                 case Id():
-                    idxs = [fpc.Integer(i), *pos]
+                    # `pos` locates the tuple (e.g. the element of a list of
+                    # tuples), `i` the component inside it
+                    idxs = [*pos, fpc.Integer(i)]
                     tuple_bind = (str(elt), fpc.Ref(fpc.Var(tuple_id), *idxs))
                     tuple_binds.append(tuple_bind)
                 case TupleBinding():
-                    idxs = [fpc.Integer(i), *pos]
+                    idxs = [*pos, fpc.Integer(i)]
                     tuple_binds += self._compile_tuple_binding(tuple_id, elt, idxs)
                 case _:
                     raise FPCoreCompileError('unexpected tensor element', elt)
